@@ -157,7 +157,7 @@ def genprog_translate(r, v):
 
 def correspondence(ctx):
     # the filter stream restricted to programs with mode / unit switches
-    return FL.correspondence(ctx, PID, dict(at=False, ext=False, addregions=False), 50, 1200)
+    return FL.correspondence(ctx, PID, dict(ext=False, addregions=False), 50, 1200)
 
 
 def oracle(ctx, budget=1, replay=None, hints=None):
